@@ -6,7 +6,7 @@ import ast
 from ..cfg import CFG
 from ..engine import AnalysisError, MechanismMissing, PropertySpec, norm
 from ..pyutil import call_name, calls, is_name, walk_local
-from ._simplify import META_PASSES, MODEL, option_blocks, passes
+from ._simplify import META_PASSES, MODEL, option_blocks, passes, substitutions
 
 SPEC = PropertySpec(
     "C15",
@@ -76,18 +76,9 @@ def r15_1(ctx, rep):
             for x in cfg.nodes:
                 if x.kind == "assume" and x.taken and any(is_name(c.func, "_make_alias") for c in calls(x.ast)):
                     removal.add(x.id)
-            # recognised idiom: `if v in states: ... elif v in alg_states: ...` without else is exhaustive
-            infeasible = set()
-            for x in ast.walk(loop):
-                if isinstance(x, ast.If) and isinstance(x.test, ast.Compare) and isinstance(x.test.ops[0], ast.In) and norm(x.test.comparators[0]) in REMOVAL_DICTS \
-                        and len(x.orelse) == 1 and isinstance(x.orelse[0], ast.If) and not x.orelse[0].orelse:
-                    inner = x.orelse[0]
-                    if isinstance(inner.test, ast.Compare) and isinstance(inner.test.ops[0], ast.In) and norm(inner.test.comparators[0]) in REMOVAL_DICTS \
-                            and norm(inner.test.left) == norm(x.test.left):
-                        for y in cfg.nodes:
-                            if y.kind == "assume" and not y.taken and y.ast is inner.test:
-                                infeasible.add(y.id)
-            w = cfg.path(body_entry, it.id, avoid=(keep | removal | infeasible) - {it.id})
+            # NB: `if v in states: ... elif v in alg_states: ...` without an else is NOT treated as exhaustive: the extraction
+            # helper tests a snapshot dictionary, so a variable removed by an earlier equation reaches the implicit else (D25)
+            w = cfg.path(body_entry, it.id, avoid=(keep | removal) - {it.id})
             # a path that leaves by `continue` returns to the iter node: covered by the same query
             rep.ob(R, site, "loop of %s" % name, w is None,
                    "a path through the equation loop of `%s` neither keeps the equation nor removes an unknown: the system "
@@ -167,6 +158,11 @@ def r15_2(ctx, rep):
 UNSIGNED_TABLES = {"do_not_eliminate", "all_states", "states", "alg_states", "der_states", "inputs", "parameters", "constants"}
 
 
+def _unsigned_table(e) -> bool:
+    """name tables keyed by plain variable names: the pass's local tables and any relation's canonical_variables"""
+    return norm(e) in UNSIGNED_TABLES or (isinstance(e, ast.Attribute) and e.attr == "canonical_variables")
+
+
 @SPEC.rule(
     "R15.3",
     "signed names never index unsigned tables: in the alias pass, values that come from AliasRelation.aliases() or from "
@@ -233,19 +229,19 @@ def r15_3(ctx, rep):
 
     for n in ast.walk(blk):
         uses = []
-        if isinstance(n, ast.Compare) and len(n.ops) == 1 and isinstance(n.ops[0], (ast.In, ast.NotIn)) and norm(n.comparators[0]) in UNSIGNED_TABLES:
+        if isinstance(n, ast.Compare) and len(n.ops) == 1 and isinstance(n.ops[0], (ast.In, ast.NotIn)) and _unsigned_table(n.comparators[0]):
             uses.append((n.left, norm(n.comparators[0]), norm(n)))
-        elif isinstance(n, ast.Subscript) and norm(n.value) in UNSIGNED_TABLES:
+        elif isinstance(n, ast.Subscript) and _unsigned_table(n.value):
             uses.append((n.slice, norm(n.value), norm(n)))
         elif isinstance(n, ast.Call) and isinstance(n.func, ast.Attribute) and n.func.attr in ("isdisjoint", "intersection", "issubset", "issuperset", "pop", "get") \
                 and n.args:
-            if norm(n.func.value) in UNSIGNED_TABLES:
+            if _unsigned_table(n.func.value):
                 uses.append((n.args[0], norm(n.func.value), norm(n)))
-            elif norm(n.args[0]) in UNSIGNED_TABLES:
+            elif _unsigned_table(n.args[0]):
                 uses.append((n.func.value, norm(n.args[0]), norm(n)))
-        elif isinstance(n, ast.BinOp) and isinstance(n.op, (ast.BitAnd, ast.Sub)) and (norm(n.left) in UNSIGNED_TABLES or norm(n.right) in UNSIGNED_TABLES):
-            other = n.right if norm(n.left) in UNSIGNED_TABLES else n.left
-            uses.append((other, norm(n.left) if norm(n.left) in UNSIGNED_TABLES else norm(n.right), norm(n)))
+        elif isinstance(n, ast.BinOp) and isinstance(n.op, (ast.BitAnd, ast.Sub)) and (_unsigned_table(n.left) or _unsigned_table(n.right)):
+            other = n.right if _unsigned_table(n.left) else n.left
+            uses.append((other, norm(n.left) if _unsigned_table(n.left) else norm(n.right), norm(n)))
         for e, table, text in uses:
             n_checked += 1
             bad = signed_expr(e, n)
@@ -315,6 +311,230 @@ def r15_4(ctx, rep):
                "categories visible to the alias pass %s, protected %s: names of %s can become an eliminated alias although only algebraic "
                "states may be eliminated" % (sorted(universe), sorted(cats), sorted(missing) or "alg_states (protected, nothing is eliminable)"))
     rep.ob(R, site, "universe has the six categories", len(universe) >= 6, "expected states, der_states, alg_states, inputs, parameters, constants; found %s" % sorted(universe))
+
+
+def _model_list_shrunk(blk):
+    """Model lists (self.X) re-assigned inside the pass to an empty list or to a local filtered list"""
+    out = {}
+    for st in ast.walk(blk):
+        if isinstance(st, ast.Assign) and isinstance(st.targets[0], ast.Attribute) and is_name(st.targets[0].value, "self") \
+                and st.targets[0].attr in ("parameters", "constants") and isinstance(st.value, (ast.List, ast.Name, ast.ListComp)):
+            out[st.targets[0].attr] = st
+    return out
+
+
+@SPEC.rule(
+    "R15.5",
+    "values substituted for eliminated symbols are closed: every pass of _simplify_once that substitutes (symbols, values) "
+    "into the equations and then removes those parameters/constants from the model either (a) admits a symbol only after "
+    "testing its value with .is_constant(), or (b) first substitutes the values into themselves "
+    "(ca.substitute(values, symbols, values)) — otherwise `constant c2 = 2*c1` leaves c1 in the residual after both "
+    "constants were removed",
+)
+def r15_5(ctx, rep):
+    R = "R15.5"
+    fn = ctx.func(MODEL, "Model._simplify_once", R)
+    site = MODEL + ":Model._simplify_once"
+    n = 0
+    for name, blk in option_blocks(fn).items():
+        subs = [s_ for s_ in substitutions(blk.body) if s_["store"] == "equations"]
+        shrunk = _model_list_shrunk(blk)
+        if not subs or not shrunk:
+            continue
+        vals, syms = subs[0]["node"].value.args[2], subs[0]["node"].value.args[1]
+        # the substituted symbols are those of the list that shrinks: self._symbols(self.L), or X.symbol appended in `for X in self.L`
+        src = set()
+        if isinstance(syms, ast.Name):
+            for st in ast.walk(blk):
+                if isinstance(st, ast.Assign) and any(is_name(t, syms.id) for t in st.targets) and isinstance(st.value, ast.Call) \
+                        and (call_name(st.value) or "").endswith("_symbols") and st.value.args and isinstance(st.value.args[0], ast.Attribute):
+                    src.add(st.value.args[0].attr)
+                if isinstance(st, ast.For) and isinstance(st.iter, ast.Attribute) and is_name(st.iter.value, "self") and any(
+                        isinstance(c, ast.Call) and isinstance(c.func, ast.Attribute) and c.func.attr == "append" and is_name(c.func.value, syms.id) for c in ast.walk(st)):
+                    src.add(st.iter.attr)
+        if not (src & set(shrunk)):
+            continue
+        n += 1
+        # (b) self-substitution of the values
+        selfsub = False
+        for c in calls(blk):
+            if (call_name(c) or "").endswith("substitute") and len(c.args) == 3 and not norm(c.args[0]).startswith("self.") \
+                    and norm(c.args[1]) == norm(syms) and norm(c.args[2]) == norm(c.args[0]) or \
+                    ((call_name(c) or "").endswith("substitute") and len(c.args) == 3 and not norm(c.args[0]).startswith("self.")
+                     and norm(c.args[1]) == norm(syms) and {x.id for x in ast.walk(c.args[0]) if isinstance(x, ast.Name)} & {x.id for x in ast.walk(vals) if isinstance(x, ast.Name)}):
+                selfsub = True
+        # (a) every append to the values list is dominated by an is_constant() test
+        guarded = False
+        if isinstance(vals, ast.Name):
+            apps = [c for c in calls(blk) if isinstance(c.func, ast.Attribute) and c.func.attr == "append" and is_name(c.func.value, vals.id)]
+            if apps:
+                guarded = True
+                for a in apps:
+                    p_ = getattr(a, "_parent", None)
+                    found = False
+                    child = a
+                    while p_ is not None and p_ is not blk:
+                        if isinstance(p_, ast.If) and any(child is x or any(child is y for y in ast.walk(x)) for x in p_.body) and "is_constant()" in norm(p_.test) \
+                                and not (isinstance(p_.test, ast.UnaryOp) and isinstance(p_.test.op, ast.Not)):
+                            found = True
+                        child = p_
+                        p_ = getattr(p_, "_parent", None)
+                    guarded = guarded and found
+        rep.ob(R, site, "pass %s: substituted values are closed" % name, selfsub or guarded,
+               "the pass removes %s from the model after substituting their values, but a value that refers to another removed symbol is "
+               "substituted as it is (no .is_constant() admission test, no substitution of the values into themselves): the "
+               "residual then refers to an eliminated symbol" % "/".join(sorted(shrunk)))
+    if n < 4:
+        raise MechanismMissing(R, "fewer than 4 by-value elimination passes found (found %d)" % n)
+
+
+@SPEC.rule(
+    "R15.6",
+    "one set of fresh input symbols: an attribute of Model that holds a freshly created symbol (self._X = ca.MX.sym(...)) "
+    "and is used as an input of the residual-function properties is never assigned inside a loop — the expressions stored "
+    "by an earlier iteration would keep referring to symbols that the attribute no longer holds, and the residual "
+    "function could not be built (free variables)",
+)
+def r15_6(ctx, rep):
+    R = "R15.6"
+    cls = ctx.cls(MODEL, "Model", R)
+    props = [m for m in cls.body if isinstance(m, ast.FunctionDef) and m.name.endswith("_function")]
+    used = {a.attr for m in props for a in ast.walk(m) if isinstance(a, ast.Attribute) and is_name(a.value, "self")}
+    n = 0
+    for m in cls.body:
+        if not isinstance(m, ast.FunctionDef):
+            continue
+        for st in walk_local(m):
+            if isinstance(st, ast.Assign) and isinstance(st.targets[0], ast.Attribute) and is_name(st.targets[0].value, "self") \
+                    and isinstance(st.value, ast.Call) and (call_name(st.value) or "").endswith("MX.sym") and st.targets[0].attr in used:
+                n += 1
+                loop = None
+                p_ = getattr(st, "_parent", None)
+                while p_ is not None and p_ is not m:
+                    if isinstance(p_, (ast.For, ast.While)):
+                        loop = p_
+                    p_ = getattr(p_, "_parent", None)
+                rep.ob(R, MODEL + ":Model." + m.name, "fresh symbol self.%s created once" % st.targets[0].attr, loop is None,
+                       "self.%s is re-created on every iteration of `for %s in %s`: what the first iteration stored refers to symbols that "
+                       "are no longer inputs of the residual functions" % (st.targets[0].attr, norm(loop.target) if isinstance(loop, ast.For) else "",
+                                                                           norm(loop.iter)[:60] if isinstance(loop, ast.For) else "while"))
+    rep.extra["R15.6_fresh_symbol_attributes"] = n
+
+
+def _conjuncts(test, positive=True):
+    """atomic (expr, polarity) facts implied by `test` being true (positive) / false (not positive)"""
+    if isinstance(test, ast.UnaryOp) and isinstance(test.op, ast.Not):
+        return _conjuncts(test.operand, not positive)
+    if isinstance(test, ast.BoolOp):
+        if (isinstance(test.op, ast.And) and positive) or (isinstance(test.op, ast.Or) and not positive):
+            return [f for v in test.values for f in _conjuncts(v, positive)]
+        return []
+    return [(test, positive)]
+
+
+def _member_term(expr, positive, tables):
+    """`T.name() in <table>` known true -> the text of T"""
+    if isinstance(expr, ast.Compare) and len(expr.ops) == 1 and isinstance(expr.comparators[0], ast.Name) and expr.comparators[0].id in tables:
+        op = expr.ops[0]
+        if (isinstance(op, ast.In) and positive) or (isinstance(op, ast.NotIn) and not positive):
+            l = expr.left
+            if isinstance(l, ast.Call) and isinstance(l.func, ast.Attribute) and l.func.attr == "name" and not l.args:
+                return norm(l.func.value)
+    return None
+
+
+@SPEC.rule(
+    "R15.7",
+    "both ends of a new alias are variables of the model: on every path of _make_alias to alias_relation.add(X.name(), "
+    "[\"-\" +] Y.name()), X and Y were each tested for membership in one of the pass's name tables — a symbol outside them "
+    "(time) would become a canonical variable that the elimination loop cannot look up",
+)
+def r15_7(ctx, rep):
+    from ..cfg import must_facts
+    R = "R15.7"
+    fn = ctx.func(MODEL, "Model._simplify_once", R)
+    blk = option_blocks(fn).get("detect_aliases")
+    if blk is None:
+        raise MechanismMissing(R, "detect_aliases block not found")
+    site = MODEL + ":Model._simplify_once"
+    tables = set(_category_tables(blk))
+    for c in calls(blk):
+        if isinstance(c.func, ast.Attribute) and c.func.attr == "update" and isinstance(c.func.value, ast.Name) and c.args and isinstance(c.args[0], ast.Name) and c.args[0].id in tables:
+            tables = tables | {c.func.value.id}
+    helpers = [n for n in ast.walk(blk) if isinstance(n, ast.FunctionDef) and any(
+        isinstance(c.func, ast.Attribute) and c.func.attr == "add" and "alias_relation" in norm(c.func.value) for c in calls(n))]
+    if not helpers:
+        raise MechanismMissing(R, "no function of the alias pass registers aliases with alias_relation.add")
+    n_sites = 0
+    for h in helpers:
+        cfg = CFG(h, R)
+
+        # state: ("v", term) = term is known to be in a name table on every path; ("s", var, term) = var may hold term
+        def close(facts):
+            facts = set(facts)
+            changed = True
+            while changed:
+                changed = False
+                srcs = {}
+                for f in facts:
+                    if f[0] == "s":
+                        srcs.setdefault(f[1], set()).add(f[2])
+                for var, ss in srcs.items():
+                    if ("v", var) not in facts and all(t == "None" or ("v", t) in facts for t in ss):
+                        facts.add(("v", var))
+                        changed = True
+            return frozenset(facts)
+
+        def join(ins):
+            ins = [close(i) for i in ins]
+            must = frozenset.intersection(*[frozenset(f for f in i if f[0] == "v") for i in ins])
+            may = frozenset.union(*[frozenset(f for f in i if f[0] == "s") for i in ins])
+            return must | may
+
+        def transfer(node, facts):
+            facts = set(close(facts))
+            if node.kind == "assume":
+                for e, pol in _conjuncts(node.ast, node.taken):
+                    t = _member_term(e, pol, tables)
+                    if t:
+                        facts.add(("v", t))
+            elif node.kind == "stmt" and isinstance(node.ast, ast.Assign):
+                tg, val = node.ast.targets[0], node.ast.value
+                if isinstance(tg, ast.Tuple) and isinstance(val, ast.Tuple) and len(tg.elts) == len(val.elts):
+                    pairs = list(zip(tg.elts, val.elts))
+                else:
+                    pairs = [(tg, val)]
+                before = set(facts)
+                for t_, _v in pairs:
+                    facts = {f for f in facts if not (f[1] == norm(t_))}
+                for t_, v_ in pairs:
+                    vt = norm(v_)
+                    old_src = {f[2] for f in before if f[0] == "s" and f[1] == vt}
+                    for s_ in (old_src or {vt}):
+                        facts.add(("s", norm(t_), s_))
+                    if ("v", vt) in before:
+                        facts.add(("v", norm(t_)))
+            return close(facts)
+
+        IN = must_facts(cfg, transfer, join)
+        for x in cfg.stmts():
+            if isinstance(x.ast, (ast.FunctionDef, ast.ClassDef)):
+                continue
+            for c in calls(x.ast):
+                if isinstance(c.func, ast.Attribute) and c.func.attr == "add" and "alias_relation" in norm(c.func.value) and len(c.args) == 2:
+                    n_sites += 1
+                    terms = []
+                    for a in c.args:
+                        for sub in ast.walk(a):
+                            if isinstance(sub, ast.Call) and isinstance(sub.func, ast.Attribute) and sub.func.attr == "name" and not sub.args:
+                                terms.append(norm(sub.func.value))
+                    facts = close(IN.get(x.id, frozenset()))
+                    missing = [t for t in terms if ("v", t) not in facts]
+                    rep.ob(R, site, "alias registration #%d: both names are known variables" % n_sites, len(terms) == 2 and not missing,
+                           "`%s` registers %s without a membership test of %s in the pass's name tables on every path: an equation such as "
+                           "`a = time` makes `time` a canonical variable and the elimination loop fails to look it up" % (norm(c)[:70], terms, missing or terms))
+    if n_sites < 2:
+        raise MechanismMissing(R, "expected the positive and the negative alias registration")
 
 
 # -- seeded variants ---------------------------------------------------------
@@ -432,6 +652,67 @@ def _m_prot(mod):
         for n in ast.walk(fn):
             if isinstance(n, ast.Assign) and isinstance(n.value, ast.Call) and call_name(n.value) == "set" and "list(constants)" in norm(n.value):
                 n.value = ast.parse(norm(n.value).replace(" + list(constants)", ""), mode="eval").body
+                return True
+        return False
+
+    return mod if replace_in_func(mod, "Model._simplify_once", edit) else None
+
+
+@SPEC.mutant("constant values not resolved among themselves", MODEL, "R15.5", "replace_constant_values")
+def _m_closed(mod):
+    def edit(fn):
+        for blk in ast.walk(fn):
+            if isinstance(blk, ast.If) and "replace_constant_values" in norm(blk.test):
+                for i, st in enumerate(blk.body):
+                    if isinstance(st, ast.For) and any((call_name(c) or "").endswith("substitute") for c in calls(st)) and "SUBSTITUTE_LOOP_LIMIT" in norm(st.iter):
+                        del blk.body[i]
+                        return True
+        return False
+
+    return mod if replace_in_func(mod, "Model._simplify_once", edit) else None
+
+
+@SPEC.mutant("affine state vectors created per equation list", MODEL, "R15.6", "created once")
+def _m_fresh(mod):
+    def edit(fn):
+        for blk in ast.walk(fn):
+            if isinstance(blk, ast.If) and "reduce_affine_expression" in norm(blk.test):
+                moved = [st for st in blk.body if isinstance(st, ast.Assign) and (call_name(st.value) or "").endswith("MX.sym")]
+                loops = [st for st in blk.body if isinstance(st, ast.For)]
+                if moved and loops:
+                    blk.body = [st for st in blk.body if st not in moved]
+                    loops[0].body = moved + loops[0].body
+                    return True
+        return False
+
+    return mod if replace_in_func(mod, "Model._simplify_once", edit) else None
+
+
+@SPEC.mutant("other end of the alias not checked against the name tables", MODEL, "R15.7", "alias registration")
+def _m_univ(mod):
+    return mod if delete_stmt_where(mod, "Model._simplify_once", lambda st: isinstance(st, ast.If) and norm(st.test).endswith(".name() not in all_states")) else None
+
+
+@SPEC.mutant("already-handled test before the sign is stripped", MODEL, "R15.3", "canonical_variables")
+def _m_signed_handled(mod):
+    def edit(fn):
+        for lp in ast.walk(fn):
+            if isinstance(lp, ast.For) and len(lp.body) > 2 and isinstance(lp.body[0], ast.If) and isinstance(lp.body[1], ast.If) \
+                    and "[0] == '-'" in norm(lp.body[0].test) and "canonical_variables" in norm(lp.body[1].test):
+                lp.body[0], lp.body[1] = lp.body[1], lp.body[0]
+                return True
+        return False
+
+    return mod if replace_in_func(mod, "Model._simplify_once", edit) else None
+
+
+@SPEC.mutant("second definition of an eliminated variable dropped", MODEL, "R15.1", "eliminable_variable_expression")
+def _m_second_def(mod):
+    def edit(fn):
+        for n in ast.walk(fn):
+            if isinstance(n, ast.If) and norm(n.test).endswith(".name() in states") and len(n.orelse) == 1 and isinstance(n.orelse[0], ast.If) \
+                    and n.orelse[0].orelse and any(isinstance(x, ast.Continue) for x in n.orelse[0].orelse):
+                n.orelse[0].orelse = []
                 return True
         return False
 
